@@ -39,7 +39,7 @@ def fills(variant):
 
 
 CODE = {'p8': b'-- from p8\nsrc=1\n', 'png': b'-- from png\nsrc=2\n', 'prev-p8': b'-- prev p8\nsrc=3\n',
-        'prev-png': b'-- prev png\nsrc=4\n', 'luafile': b'-- from lua file\nsrc=5\n'}
+        'prev-png': b'-- prev png\nsrc=4\n', 'luafile': b'-- from lua file\nsrc=5\n', 'sparse': b'-- sparse\nsrc=6\n'}
 
 
 def ref_p8(fl, code, label=None, version=33):
@@ -90,6 +90,17 @@ class Env(object):
         open(self.src_p8, 'wb').write(ref_p8(self.f['p8'], CODE['p8']))
         open(self.src_png, 'wb').write(ref_png(self.f['png'], CODE['png'], [bytes(640)] * 205))
         open(self.src_lua, 'wb').write(CODE['luafile'])
+        # .p8 sources as PICO-8 saves carts whose other sections were never edited: those sections are left out
+        self.src_sparse_a = os.path.join(self.d, 'sparse_a.p8')     # __lua__ and __gfx__ only
+        self.src_sparse_b = os.path.join(self.d, 'sparse_b.p8')     # __lua__, __sfx__, __music__ only
+        fa = fills(6)
+        open(self.src_sparse_a, 'wb').write(
+            rc.P8_HEADER + b'version 33\n__lua__\n' + CODE['sparse'] + b'__gfx__\n' +
+            b''.join(r.encode() + b'\n' for r in rc.gfx_rows(fa['gfx'])))
+        open(self.src_sparse_b, 'wb').write(
+            rc.P8_HEADER + b'version 33\n__lua__\n' + CODE['sparse'] + b'__sfx__\n' +
+            b''.join(r.encode() + b'\n' for r in rc.sfx_rows(fa['sfx'])) + b'__music__\n' +
+            b''.join(r.encode() + b'\n' for r in rc.music_rows(fa['music'])))
         open(os.path.join(self.d, 'notacart.txt'), 'wb').write(b'hello')
         self.prev_p8 = ref_p8(self.f['prev-p8'], CODE['prev-p8'], label=self.label_p8)
         self.prev_png = ref_png(self.f['prev-png'], CODE['prev-png'], self.rows)
@@ -143,6 +154,8 @@ def run_build(env, assign, state, res, lua_file=False):
             args += ['--empty-' + sec]
         elif ch == 'luafile':
             args += ['--lua', env.src_lua]
+        elif ch == 'sparse':
+            args += ['--' + sec, env.src_sparse_b if sec == 'gfx' else env.src_sparse_a]
     case = {'assign': list(assign), 'out': state}
     if any(c != 'none' for c in assign):
         res.nontriv((tuple(assign), state))
@@ -162,7 +175,7 @@ def run_build(env, assign, state, res, lua_file=False):
     prev = {'existing-p8': 'prev-p8', 'existing-png': 'prev-png'}.get(state)
     for sec, ch in zip(SECTIONS, assign):
         if sec == 'lua':
-            if ch in ('p8', 'png', 'luafile'):
+            if ch in ('p8', 'png', 'luafile', 'sparse'):
                 want = CODE[ch]
             elif ch == 'empty' or prev is None:
                 want = b''
@@ -174,7 +187,7 @@ def run_build(env, assign, state, res, lua_file=False):
             continue
         if ch in ('p8', 'png'):
             want = env.f[ch][sec]
-        elif ch == 'empty' or prev is None:
+        elif ch == 'sparse' or ch == 'empty' or prev is None:
             want = empty_regions()[sec]
         else:
             want = env.f[prev][sec]
@@ -188,6 +201,7 @@ def run_build(env, assign, state, res, lua_file=False):
                           'build %r: OUT %s section holds %s, expected %s' % (
                               args[2:], sec, which or 'something else',
                               {'p8': 'the .p8 source', 'png': 'the .p8.png source', 'empty': 'the empty default',
+                               'sparse': 'the empty default (the named .p8 source leaves this section out)',
                                'none': ('OUT\'s previous section' if prev else 'the empty default')}[ch]), case)
     # label
     if state == 'existing-png':
@@ -258,7 +272,7 @@ def assignments(max_spec):
 def shards(tier, seed):
     n = 32 if tier == 'quick' else 128
     items = [('assign', tier, k, n) for k in range(n)]
-    items += [('luafile', tier), ('errors', tier), ('resave', tier)]
+    items += [('luafile', tier), ('errors', tier), ('resave', tier), ('sparse', tier)]
     return items
 
 
@@ -282,6 +296,15 @@ def run_shard(item):
                 for other in itertools.product(['none', 'p8', 'empty'], repeat=2):
                     assign = ['luafile', other[0], 'none', other[1], 'none', 'none']
                     run_build(env, assign, state, res)
+        elif item[0] == 'sparse':
+            for state in OUT_STATES:
+                for si, sec in enumerate(SECTIONS):
+                    for ctx in ('none', 'png', 'empty'):
+                        assign = [ctx] * 6
+                        assign[si] = 'sparse'
+                        run_build(env, assign, state, res)
+                run_build(env, ['sparse'] * 6, state, res)
+            res.sample({'sparse': 'build OUT --map sparse_a.p8 (a .p8 source without a __map__ section)', 'out': 'existing-p8'})
         elif item[0] == 'resave':
             # histories: the same source paths are re-saved with new contents between builds of one process
             for rnd in range(3):
